@@ -986,6 +986,9 @@ class Exec:
                 self.heap_store(obj, t.attr, v, st)
                 return
             if isinstance(obj, VObj):
+                if obj.cls == "Multidecoder" and self.fname.split(".")[-1] != "__init__":
+                    # C09: a scan never writes to the scanner object (history / thread independence)
+                    self.oblige(st, "frame/write", f"self.{t.attr}@L{getattr(self, 'cur_line', 0) - self.fn.lineno}", z3.BoolVal(False), getattr(self, "cur_line", 0), note="store to an attribute of the shared scanner object")
                 st.objattrs.setdefault(id(obj), {})[t.attr] = v
                 return
             raise Unsupported(f"attribute store on {obj}")
